@@ -23,6 +23,15 @@ def correct(value, ty):
     return value - base if signed and value.bit_length() == bits else value
 
 
+def truncated_mod(a, b):
+    """Remainder with the sign of the dividend, as the IR prescribes.
+
+    Python's % operator takes the sign of the divisor instead.
+    """
+    remainder = abs(a) % abs(b)
+    return -remainder if a < 0 else remainder
+
+
 def enhance(f):
     """Create a new enhanced method that corrects for the given type"""
     return lambda ty, a, b: correct(f(a, b), ty)
@@ -37,7 +46,7 @@ class ConstantFolder(BlockPass):
             "+": enhance(operator.add),
             "-": enhance(operator.sub),
             "*": enhance(operator.mul),
-            "%": enhance(operator.mod),
+            "%": enhance(truncated_mod),
             "<<": enhance(operator.lshift),
             ">>": enhance(operator.rshift),
         }
